@@ -422,8 +422,10 @@ def _e2e(arg):
             ev["obs"], ev["raw"] = {"pairs_ok": bool(pairs_ok), "ee_ok": bool(ee_ok)}, {"pairs": raw}
     np.random.seed(sd)
     random.seed(sd)
+    signal.signal(signal.SIGPROF, _alarm)
+    signal.setitimer(signal.ITIMER_PROF, 60, 5)     # CPU time of this process: the limit does not depend on the load of the machine
     signal.signal(signal.SIGALRM, _alarm)
-    signal.setitimer(signal.ITIMER_REAL, 60, 5)
+    signal.setitimer(signal.ITIMER_REAL, 720, 5)     # wall-clock safety net
     pers.generate_end_end_distances = gen
     bsys.sample_end_to_end_distances = sample
     try:
@@ -467,6 +469,7 @@ def _e2e(arg):
     finally:
         pers.generate_end_end_distances = o_gen
         bsys.sample_end_to_end_distances = o_sample
+        signal.setitimer(signal.ITIMER_PROF, 0)
         signal.setitimer(signal.ITIMER_REAL, 0)
 
 
